@@ -523,6 +523,18 @@ theorem stage1_spec {num : Number} {s : Nat} {sFp : ExtFloat} {x : ℚ}
 theorem bump_ge (e : Nat) : 4 ≤ bump e ∧ e ≤ bump e ∧ bump e ≤ e + 5 := by
   unfold bump errorHalfscale; split <;> omega
 
+theorem stage_leaf (F : FloatC) (num : Number) (sInt : Nat) (sFp lFp : ExtFloat)
+    {fp1 fp3 : ExtFloat} {errors1 shift : Nat}
+    (heq1 : stage1 num sInt sFp = (fp1, errors1))
+    (heq2 : belNormalize (belMul fp1 lFp) = (fp3, shift)) :
+    stage F num sInt sFp lFp =
+      (⟨fp3.mant, fp3.exp + F.exponentBias⟩, (bump errors1 * 2 ^ shift) % u64Mod) := by
+  unfold stage
+  rw [heq1]
+  dsimp only
+  rw [heq2]
+
+
 /-- **B3.**  Just before `error_is_accurate`: the significand is normalised, and — unless the error
     budget saturated (`errors3 ≥ TOO_MANY_ERRORS`) — the true value `x · 10^s · P` lies in
     `[(mant − d) · 2^e, (mant + errors3 − d) · 2^e]`, `e = exp − bias`, where `d = 2^shift ≤ errors3/4`
@@ -549,71 +561,76 @@ theorem stage_spec (F : FloatC) {num : Number} {s : Nat} {sFp lFp : ExtFloat} {x
         x * (10:ℚ) ^ s * P ≤
           (((stage F num (10 ^ s) sFp lFp).1.mant : ℚ) + (stage F num (10 ^ s) sFp lFp).2 - d) *
             (2:ℚ) ^ ((stage F num (10 ^ s) sFp lFp).1.exp - F.exponentBias)) := by
-  unfold stage
-  dsimp only
   obtain ⟨p62, p64, pe, psmall, a, b, ha0, ha, hb0, o1, o2, hbud⟩ :=
     stage1_spec (s := s) hw0 hw64 hs1 hs2 hs3 hs4 hx1 hx2 hx3
-  generalize stage1 num (10 ^ s) sFp = p1 at *
-  obtain ⟨m1, m2⟩ := off_mul (x := p1.1) (y := lFp) p64 hl2 (X := x * (10:ℚ) ^ s) (Y := P)
+  obtain ⟨fp1, errors1, heq1⟩ : ∃ u v, stage1 num (10 ^ s) sFp = (u, v) := ⟨_, _, Prod.mk.eta.symm⟩
+  rw [heq1] at p62 p64 pe psmall o1 o2 hbud
+  dsimp only at p62 p64 pe psmall o1 o2 hbud
+  obtain ⟨m1, m2⟩ := off_mul (x := fp1) (y := lFp) p64 hl2 (X := x * (10:ℚ) ^ s) (Y := P)
     ha0 hb0 o1 o2 hl3 hl4
-  have f61 := belMul_ge (x := p1.1) (y := lFp) (a := 62) (by decide) (by decide) p64 hl2 p62 hl1
-  have f64 := belMul_lt (x := p1.1) (y := lFp) p64 hl2
-  have hsh : clz64 (belMul p1.1 lFp).mant ≤ 2 := clz64_le_of_le (by decide) f61
-  have f0 : (belMul p1.1 lFp).mant ≠ 0 := by
+  have f61 := belMul_ge (x := fp1) (y := lFp) (a := 62) (by decide) (by decide) p64 hl2 p62 hl1
+  have f64 := belMul_lt (x := fp1) (y := lFp) p64 hl2
+  have hsh : clz64 (belMul fp1 lFp).mant ≤ 2 := clz64_le_of_le (by decide) f61
+  have f0 : (belMul fp1 lFp).mant ≠ 0 := by
     have : 0 < 2 ^ (62 - 1) := Nat.two_pow_pos _
     omega
   obtain ⟨n1, n2, n3, n4, n5⟩ := belNormalize_spec f0 f64
   have noff := off_normalize f0 f64 (x * (10:ℚ) ^ s * P)
-  obtain ⟨b4, b5, b6⟩ := bump_ge p1.2
-  have hd4 : 2 ^ clz64 (belMul p1.1 lFp).mant ≤ 2 ^ 2 := Nat.pow_le_pow_right (by decide) hsh
-  have hd1 : 1 ≤ 2 ^ clz64 (belMul p1.1 lFp).mant := Nat.two_pow_pos _
-  have hst2 : (bump p1.2 * 2 ^ (belNormalize (belMul p1.1 lFp)).2) % u64Mod =
-      bump p1.2 * 2 ^ clz64 (belMul p1.1 lFp).mant := by
-    rw [n1]
+  obtain ⟨fp3, shift, heq2⟩ : ∃ u v, belNormalize (belMul fp1 lFp) = (u, v) := ⟨_, _, Prod.mk.eta.symm⟩
+  rw [heq2] at n1 n2 n3 n4 n5 noff
+  dsimp only at n1 n2 n3 n4 n5 noff
+  rw [stage_leaf F num (10 ^ s) sFp lFp heq1 heq2, heq1]
+  dsimp only
+  subst n1
+  obtain ⟨b4, b5, b6⟩ := bump_ge errors1
+  have hd4 : 2 ^ clz64 (belMul fp1 lFp).mant ≤ 2 ^ 2 := Nat.pow_le_pow_right (by decide) hsh
+  have hd1 : 1 ≤ 2 ^ clz64 (belMul fp1 lFp).mant := Nat.two_pow_pos _
+  have hst2 : (bump errors1 * 2 ^ clz64 (belMul fp1 lFp).mant) % u64Mod =
+      bump errors1 * 2 ^ clz64 (belMul fp1 lFp).mant := by
     apply Nat.mod_eq_of_lt
-    have := Nat.mul_le_mul (show bump p1.2 ≤ tooManyErrors + 9 by omega) hd4
+    have := Nat.mul_le_mul (show bump errors1 ≤ tooManyErrors + 9 by omega) hd4
     unfold tooManyErrors at this
     unfold u64Mod
     omega
   rw [hst2]
-  generalize hd : 2 ^ clz64 (belMul p1.1 lFp).mant = d at *
+  generalize hd : 2 ^ clz64 (belMul fp1 lFp).mant = d at *
   refine ⟨n4, n5, ?_, hsh, ?_, ?_, ?_⟩
   · rw [n3, belMul_exp]
   · have := Nat.mul_le_mul b4 hd1; omega
   · intro h
     have h1 := psmall h
-    have := Nat.mul_le_mul (show bump p1.2 ≤ 153 by omega) hd4
+    have := Nat.mul_le_mul (show bump errors1 ≤ 153 by omega) hd4
     omega
   · rcases hbud with h | h
     · left
-      have := Nat.mul_le_mul (show tooManyErrors ≤ bump p1.2 by omega) hd1
+      have := Nat.mul_le_mul (show tooManyErrors ≤ bump errors1 by omega) hd1
       omega
     · right
       refine ⟨d, hd1, ?_, ?_, ?_⟩
       · have := Nat.mul_le_mul_right d b4; omega
       · -- lower bound
-        have e : (belNormalize (belMul p1.1 lFp)).1.exp + F.exponentBias - F.exponentBias =
-            (belNormalize (belMul p1.1 lFp)).1.exp := by ring
+        have e : fp3.exp + F.exponentBias - F.exponentBias =
+            fp3.exp := by ring
         rw [e]
-        have hp := two_zpow_pos (belNormalize (belMul p1.1 lFp)).1.exp
-        have hdq : ((2:ℚ) ^ clz64 (belMul p1.1 lFp).mant) = (d : ℚ) := by rw [← hd]; push_cast; rfl
+        have hp := two_zpow_pos fp3.exp
+        have hdq : ((2:ℚ) ^ clz64 (belMul fp1 lFp).mant) = (d : ℚ) := by rw [← hd]; push_cast; rfl
         rw [hdq] at noff
         have hd1q : (1:ℚ) ≤ d := by exact_mod_cast hd1
-        have lo : -(d:ℚ) ≤ off (belNormalize (belMul p1.1 lFp)).1 (x * (10:ℚ) ^ s * P) := by
+        have lo : -(d:ℚ) ≤ off fp3 (x * (10:ℚ) ^ s * P) := by
           rw [noff]
           have := mul_le_mul_of_nonneg_right m1 (show (0:ℚ) ≤ d by linarith)
           nlinarith
         unfold off at lo
         rw [← le_div_iff₀ hp]; linarith
-      · have e : (belNormalize (belMul p1.1 lFp)).1.exp + F.exponentBias - F.exponentBias =
-            (belNormalize (belMul p1.1 lFp)).1.exp := by ring
+      · have e : fp3.exp + F.exponentBias - F.exponentBias =
+            fp3.exp := by ring
         rw [e]
-        have hp := two_zpow_pos (belNormalize (belMul p1.1 lFp)).1.exp
-        have hdq : ((2:ℚ) ^ clz64 (belMul p1.1 lFp).mant) = (d : ℚ) := by rw [← hd]; push_cast; rfl
+        have hp := two_zpow_pos fp3.exp
+        have hdq : ((2:ℚ) ^ clz64 (belMul fp1 lFp).mant) = (d : ℚ) := by rw [← hd]; push_cast; rfl
         rw [hdq] at noff
         have hd1q : (1:ℚ) ≤ d := by exact_mod_cast hd1
-        have hi : off (belNormalize (belMul p1.1 lFp)).1 (x * (10:ℚ) ^ s * P) ≤
-            ((bump p1.2 : Nat) : ℚ) * d - d := by
+        have hi : off fp3 (x * (10:ℚ) ^ s * P) ≤
+            ((bump errors1 : Nat) : ℚ) * d - d := by
           rw [noff]
           have := mul_le_mul_of_nonneg_right m2 (show (0:ℚ) ≤ d by linarith)
           have := mul_le_mul_of_nonneg_right h (show (0:ℚ) ≤ d by linarith)
@@ -622,18 +639,9 @@ theorem stage_spec (F : FloatC) {num : Number} {s : Nat} {sFp lFp : ExtFloat} {x
         rw [← div_le_iff₀ hp]; push_cast; linarith
 
 
-/-! ## The model's main path as `finish ∘ stage` -/
 
-theorem stage_leaf (F : FloatC) (num : Number) (sInt : Nat) (sFp lFp : ExtFloat)
-    {fp1 fp3 : ExtFloat} {errors1 shift : Nat}
-    (heq1 : stage1 num sInt sFp = (fp1, errors1))
-    (heq2 : belNormalize (belMul fp1 lFp) = (fp3, shift)) :
-    stage F num sInt sFp lFp =
-      (⟨fp3.mant, fp3.exp + F.exponentBias⟩, (bump errors1 * 2 ^ shift) % u64Mod) := by
-  unfold stage
-  rw [heq1]
-  dsimp only
-  rw [heq2]
+
+/-! ## The model's main path as `finish ∘ stage` -/
 
 theorem bellerophon_main (T : BelTables) (F : FloatC) (num : Number) {sInt : Nat} {sFp lFp : ExtFloat}
     (h1 : ¬ (num.mantissa = 0 ∨ num.exponent ≤ -4096)) (h2 : ¬ num.exponent ≥ 4096)
@@ -685,5 +693,637 @@ theorem bellerophon_main (T : BelTables) (F : FloatC) (num : Number) {sInt : Nat
   · dsimp only
     intro _ _ _ _ hn
     exact absurd hlf (fun h => hn _ _ _ hs hsf h)
+
+/-! ## B2 — totality, early returns, case analysis -/
+
+set_option linter.unusedVariables false in
+theorem bel_zero1 (T : BelTables) (F : FloatC) (num : Number)
+    (h : num.mantissa = 0 ∨ num.exponent ≤ -4096) : bellerophon T F num = some ⟨0, 0⟩ := by
+  refine bellerophon.fun_cases_unfolding T F num (fun r => r = some ⟨0, 0⟩)
+    ?_ ?_ ?_ ?_ ?_ ?_ ?_ ?_ ?_ <;> (try dsimp only) <;> intros <;> first | rfl | contradiction
+
+set_option linter.unusedVariables false in
+theorem bel_inf1 (T : BelTables) (F : FloatC) (num : Number)
+    (h1 : ¬ (num.mantissa = 0 ∨ num.exponent ≤ -4096)) (h2 : num.exponent ≥ 4096) :
+    bellerophon T F num = some ⟨0, F.infinitePower⟩ := by
+  refine bellerophon.fun_cases_unfolding T F num (fun r => r = some ⟨0, F.infinitePower⟩)
+    ?_ ?_ ?_ ?_ ?_ ?_ ?_ ?_ ?_ <;> (try dsimp only) <;> intros <;> first | rfl | contradiction
+
+set_option linter.unusedVariables false in
+theorem bel_zero2 (T : BelTables) (F : FloatC) (num : Number)
+    (h1 : ¬ (num.mantissa = 0 ∨ num.exponent ≤ -4096)) (h2 : ¬ num.exponent ≥ 4096)
+    (h3 : num.exponent + T.bias < 0) : bellerophon T F num = some ⟨0, 0⟩ := by
+  refine bellerophon.fun_cases_unfolding T F num (fun r => r = some ⟨0, 0⟩)
+    ?_ ?_ ?_ ?_ ?_ ?_ ?_ ?_ ?_ <;> (try dsimp only) <;> intros <;> first | rfl | contradiction
+
+set_option linter.unusedVariables false in
+theorem bel_inf2 (T : BelTables) (F : FloatC) (num : Number)
+    (h1 : ¬ (num.mantissa = 0 ∨ num.exponent ≤ -4096)) (h2 : ¬ num.exponent ≥ 4096)
+    (h3 : ¬ num.exponent + T.bias < 0)
+    (h4 : (Int.tdiv (num.exponent + T.bias) T.step).toNat ≥ T.large.length) :
+    bellerophon T F num = some ⟨0, F.infinitePower⟩ := by
+  refine bellerophon.fun_cases_unfolding T F num (fun r => r = some ⟨0, F.infinitePower⟩)
+    ?_ ?_ ?_ ?_ ?_ ?_ ?_ ?_ ?_ <;> (try dsimp only) <;> intros <;> first | rfl | contradiction
+
+/-- **B2 (case analysis).**  On the regenerated tables `bellerophon` never panics, and its result is
+    one of: the zero return (`w = 0` or `q ≤ −351`), the infinity return (`q ≥ 310`), or
+    `finish (stage …)` with in-range table indices `s = (q+350) mod 10 < 10`, `l = (q+350)/10 < 66`. -/
+theorem bellerophon_cases (F : FloatC) (num : Number) :
+    ((num.mantissa = 0 ∨ num.exponent ≤ -351) ∧ bellerophon genBel F num = some ⟨0, 0⟩) ∨
+    (num.mantissa ≠ 0 ∧ 310 ≤ num.exponent ∧ bellerophon genBel F num = some ⟨0, F.infinitePower⟩) ∨
+    (num.mantissa ≠ 0 ∧ ∃ (s l : Nat) (sFp lFp : ExtFloat), s < 10 ∧ l < 66 ∧
+      num.exponent = (s : Int) + (l : Int) * 10 - 350 ∧
+      genBel.getSmall s = some sFp ∧ genBel.getLarge l = some lFp ∧
+      bellerophon genBel F num =
+        some (finish F (stage F num (10 ^ s) sFp lFp).1 (stage F num (10 ^ s) sFp lFp).2)) := by
+  obtain ⟨g1, g2, g3, g4, g5⟩ := genBel_facts
+  by_cases h1 : num.mantissa = 0 ∨ num.exponent ≤ -4096
+  · left
+    exact ⟨by rcases h1 with h | h; exact Or.inl h; exact Or.inr (by omega), bel_zero1 _ _ _ h1⟩
+  have hw : num.mantissa ≠ 0 := fun h => h1 (Or.inl h)
+  by_cases h2 : num.exponent ≥ 4096
+  · right; left; exact ⟨hw, by omega, bel_inf1 _ _ _ h1 h2⟩
+  by_cases h3 : num.exponent + genBel.bias < 0
+  · left; exact ⟨Or.inr (by rw [g5] at h3; omega), bel_zero2 _ _ _ h1 h2 h3⟩
+  have h3' : 0 ≤ num.exponent + 350 := by rw [g5] at h3; omega
+  by_cases h4 : (Int.tdiv (num.exponent + genBel.bias) genBel.step).toNat ≥ genBel.large.length
+  · right; left
+    refine ⟨hw, ?_, bel_inf2 _ _ _ h1 h2 h3 h4⟩
+    rw [g5, g4, g2, Int.tdiv_eq_ediv_of_nonneg h3'] at h4
+    omega
+  right; right
+  refine ⟨hw, ?_⟩
+  have hidx1 : (Int.tmod (num.exponent + genBel.bias) genBel.step).toNat =
+      ((num.exponent + 350) % 10).toNat := by
+    rw [g5, g4, Int.tmod_eq_emod_of_nonneg h3']
+  have hidx2 : (Int.tdiv (num.exponent + genBel.bias) genBel.step).toNat =
+      ((num.exponent + 350) / 10).toNat := by
+    rw [g5, g4, Int.tdiv_eq_ediv_of_nonneg h3']
+  have hs : ((num.exponent + 350) % 10).toNat < 10 := by omega
+  have hl : ((num.exponent + 350) / 10).toNat < 66 := by
+    rw [hidx2, g2] at h4; omega
+  obtain ⟨sFp, hsf, _⟩ := small_entry hs
+  obtain ⟨lFp, hlf, _⟩ := large_entry hl
+  refine ⟨_, _, sFp, lFp, hs, hl, by omega, hsf, hlf, ?_⟩
+  apply bellerophon_main genBel F num h1 h2 h3 h4
+  · rw [hidx1]; exact smallInt_entry hs
+  · rw [hidx1]; exact hsf
+  · rw [hidx2]; exact hlf
+
+/-- **B2 (totality).** -/
+theorem bellerophon_total (F : FloatC) (num : Number) : ∃ fp, bellerophon genBel F num = some fp := by
+  rcases bellerophon_cases F num with h | h | ⟨_, _, _, _, _, _, _, _, _, _, h⟩
+  · exact ⟨_, h.2⟩
+  · exact ⟨_, h.2.2⟩
+  · exact ⟨_, h⟩
+
+
+/-! ## B4 — no rounding boundary inside the error window -/
+
+theorem rhe_decomp {A B q r : Nat} (hB : 0 < B) (h : A = q * B + r) (hr : r < B) :
+    rhe A B = if 2 * r > B ∨ (2 * r = B ∧ q % 2 = 1) then q + 1 else q := by
+  have h1 : A / B = q := by
+    rw [h, Nat.mul_comm, Nat.mul_add_div hB, Nat.div_eq_of_lt hr, Nat.add_zero]
+  have h2 : A % B = r := by
+    rw [h, Nat.mul_comm, Nat.mul_add_mod, Nat.mod_eq_of_lt hr]
+  unfold rhe; simp only [h1, h2]
+
+theorem rhe_down {A B q r : Nat} (h : A = q * B + r) (hr : 2 * r < B) : rhe A B = q := by
+  rw [rhe_decomp (by omega) h (by omega), if_neg (by omega)]
+
+theorem rhe_up {A B q r : Nat} (h : A = q * B + r) (hr : r < B) (hr2 : B < 2 * r) :
+    rhe A B = q + 1 := by
+  rw [rhe_decomp (by omega) h hr, if_pos (by omega)]
+
+/-- closed form of `rne` at a normalised significand -/
+def cf (F : FloatC) (N : Nat) (exp : Int) : Nat :=
+  min (rhe N (2 ^ specShift F exp) + expOff F exp * 2 ^ F.mantissaSize) F.fmt.infBits
+
+theorem rne_cf {F : FloatC} (h : F.WF) {N : Nat} (h1 : 2 ^ 63 ≤ N) (h2 : N < 2 ^ 64) (exp : Int) :
+    rne F.fmt (ofDyadic N (exp - F.exponentBias)) = cf F N exp := rne_ofDyadic h h1 h2 exp
+
+/-- how shift and exponent offset change from `exp` to `exp + 1` -/
+theorem shift_rel {F : FloatC} (h : F.WF) (exp : Int) :
+    (specShift F exp = specShift F (exp + 1) + 1 ∧ expOff F exp = 0 ∧ expOff F (exp + 1) = 0) ∨
+    (specShift F exp = 63 - F.mantissaSize ∧ specShift F (exp + 1) = 63 - F.mantissaSize ∧
+      expOff F (exp + 1) = expOff F exp + 1) := by
+  have := h.ms_le
+  unfold specShift expOff
+  split <;> split <;> omega
+
+theorem pow_succ' (k : Nat) : 2 ^ (k + 1) = 2 * 2 ^ k := by rw [Nat.pow_succ, Nat.mul_comm]
+
+/-- crossing the lower binade boundary: `(2^63 − d)·2^j = (2^64 − 2d)·2^(j−1)` rounds like `2^63·2^j` -/
+theorem cross_low {F : FloatC} (h : F.WF) {exp : Int} {d : Nat} (hk63 : specShift F exp ≤ 63)
+    (hd : 1 ≤ d) (hd8 : 8 * d ≤ 2 ^ specShift F exp) :
+    cf F (2 ^ 64 - 2 * d) (exp - 1) = cf F (2 ^ 63) exp := by
+  have hms := h.ms_le
+  have hrel := shift_rel h (exp - 1)
+  rw [show exp - 1 + 1 = exp by ring] at hrel
+  unfold cf
+  generalize hk : specShift F exp = k at *
+  have hP : 0 < 2 ^ k := Nat.two_pow_pos k
+  rcases hrel with ⟨r1, r2, r3⟩ | ⟨r1, r2, r3⟩
+  · -- the shift grows by one, both subnormal
+    rw [r1, r2, r3, pow_succ' k]
+    obtain ⟨U, hU⟩ : ∃ U, 2 ^ 63 = U * 2 ^ k := ⟨2 ^ (63 - k), by rw [← Nat.pow_add]; congr 1; omega⟩
+    have hU1 : 1 ≤ U := by
+      rcases Nat.eq_zero_or_pos U with h0 | h0
+      · rw [h0] at hU; omega
+      · exact h0
+    generalize 2 ^ k = P at *
+    have e1 : rhe (2 ^ 64 - 2 * d) (2 * P) = U := by
+      have : 2 ^ 64 - 2 * d = (U - 1) * (2 * P) + (2 * P - 2 * d) := by
+        have : (U - 1) * (2 * P) = 2 * (U * P) - 2 * P := by
+          rw [Nat.sub_mul, Nat.one_mul]; ring_nf
+        have hle : 2 * P ≤ 2 * (U * P) := by
+          have := Nat.mul_le_mul_right P hU1; omega
+        omega
+      rw [rhe_up this (by omega) (by omega)]; omega
+    have e2 : rhe (2 ^ 63) P = U := rhe_down (r := 0) (by omega) (by omega)
+    rw [e1, e2]
+  · -- both normal: same shift, offset one less
+    rw [r1, r3, ← r2]
+    obtain ⟨S, hS⟩ : ∃ S, S = 2 ^ F.mantissaSize := ⟨_, rfl⟩
+    have hSP : 2 ^ 63 = S * 2 ^ k := by
+      rw [hS, ← Nat.pow_add]; congr 1; omega
+    have hS1 : 1 ≤ S := by rw [hS]; exact Nat.two_pow_pos _
+    rw [← hS]
+    generalize 2 ^ k = P at *
+    have e1 : rhe (2 ^ 64 - 2 * d) P = 2 * S := by
+      have : 2 ^ 64 - 2 * d = (2 * S - 1) * P + (P - 2 * d) := by
+        have : (2 * S - 1) * P = 2 * (S * P) - P := by
+          rw [Nat.sub_mul, Nat.one_mul]; ring_nf
+        have hle : P ≤ 2 * (S * P) := by
+          have := Nat.mul_le_mul_right P hS1; omega
+        omega
+      rw [rhe_up this (by omega) (by omega)]; omega
+    have e2 : rhe (2 ^ 63) P = S := rhe_down (r := 0) (by omega) (by omega)
+    rw [e1, e2, Nat.add_mul, Nat.one_mul]
+    congr 1
+    omega
+
+/-- crossing the upper binade boundary: `(2^64 + H − 2)·2^j`, `H = 2^(k−1)`, rounds like `2^64·2^j` -/
+theorem cross_up {F : FloatC} (h : F.WF) {exp : Int} (hk2 : 2 ≤ specShift F exp)
+    (hk64 : specShift F exp ≤ 64) :
+    cf F (2 ^ 63 + 2 ^ (specShift F exp - 2) - 1) (exp + 1) =
+      min (2 ^ (64 - specShift F exp) + expOff F exp * 2 ^ F.mantissaSize) F.fmt.infBits := by
+  have hms := h.ms_le
+  have hrel := shift_rel h exp
+  unfold cf
+  generalize hk : specShift F exp = k at *
+  obtain ⟨H2, hH2⟩ : ∃ H2, H2 = 2 ^ (k - 2) := ⟨_, rfl⟩
+  have hH21 : 1 ≤ H2 := by rw [hH2]; exact Nat.two_pow_pos _
+  rw [← hH2]
+  rcases hrel with ⟨r1, r2, r3⟩ | ⟨r1, r2, r3⟩
+  · have hk' : specShift F (exp + 1) = k - 1 := by omega
+    rw [hk', r2, r3]
+    have hP : 2 ^ (k - 1) = 2 * H2 := by
+      rw [hH2, ← pow_succ' (k - 2)]; congr 1; omega
+    have hT : 2 ^ 63 = 2 ^ (64 - k) * 2 ^ (k - 1) := by
+      rw [← Nat.pow_add]; congr 1; omega
+    rw [hP] at hT ⊢
+    generalize 2 ^ (64 - k) = T at *
+    have : 2 ^ 63 + H2 - 1 = T * (2 * H2) + (H2 - 1) := by omega
+    rw [rhe_down this (by omega)]
+  · rw [r2, r3, ← r1]
+    have hk4 : 2 ^ k = 4 * H2 := by
+      have e1 : 2 ^ k = 2 * 2 ^ (k - 1) := by rw [← pow_succ' (k - 1)]; congr 1; omega
+      have e2 : 2 ^ (k - 1) = 2 * 2 ^ (k - 2) := by rw [← pow_succ' (k - 2)]; congr 1; omega
+      rw [e1, e2, hH2]; ring
+    obtain ⟨S, hS⟩ : ∃ S, S = 2 ^ F.mantissaSize := ⟨_, rfl⟩
+    have hSP : 2 ^ 63 = S * 2 ^ k := by
+      rw [hS, ← Nat.pow_add]; congr 1; omega
+    have hT : 2 ^ (64 - k) = 2 * S := by
+      rw [hS, ← pow_succ' F.mantissaSize]; congr 1; omega
+    rw [← hS, hT, hk4]
+    rw [hk4] at hSP
+    have : 2 ^ 63 + H2 - 1 = S * (4 * H2) + (H2 - 1) := by omega
+    rw [rhe_down this (by omega), Nat.add_mul, Nat.one_mul]
+    congr 1
+    omega
+
+/-- what `error_is_accurate` checks, for `exp ≥ −63`: the budget is below `TOO_MANY_ERRORS`, at most
+    half a float ulp, and the dropped bits are at least `errors` away from the halfway point -/
+theorem acc_unpack {F : FloatC} (h : F.WF) {M e : Nat} {exp : Int} 
+    (hexp : -63 ≤ exp) (hacc : errorIsAccurate F e ⟨M, exp⟩ = true) :
+    e < tooManyErrors ∧ e ≤ 2 ^ (specShift F exp - 1) ∧
+    (M % 2 ^ specShift F exp + e ≤ 2 ^ (specShift F exp - 1) ∨
+     2 ^ (specShift F exp - 1) + e ≤ M % 2 ^ specShift F exp) := by
+  obtain ⟨hk1, hk64⟩ := specShift_bounds h hexp
+  have hms := h.ms_le
+  unfold errorIsAccurate at hacc
+  by_cases he : e ≥ tooManyErrors
+  · simp [he] at hacc
+  rw [if_neg he] at hacc
+  have hx : (if exp ≤ -(64 - (F.mantissaSize : Int) - 1) then 1 - exp
+      else 64 - (F.mantissaSize : Int) - 1) = (specShift F exp : Int) := by
+    unfold specShift; split <;> split <;> omega
+  dsimp only at hacc
+  rw [hx] at hacc
+  rw [if_neg (by omega), Int.toNat_natCast, C18_lowerNMask hk64, C18_lowerNHalfway hk1 hk64,
+    and_lowMask] at hacc
+  generalize hk : specShift F exp = k at *
+  have hH : 2 ^ (k - 1) ≤ 2 ^ 63 := Nat.pow_le_pow_right (by decide) (by omega)
+  generalize 2 ^ (k - 1) = H at *
+  generalize M % 2 ^ k = extra at *
+  unfold tooManyErrors at he
+  by_cases hgt : e > H
+  · simp [hgt] at hacc
+  rw [if_neg hgt] at hacc
+  refine ⟨by unfold tooManyErrors; omega, by omega, ?_⟩
+  have c1 : (H + u64Mod - e) % u64Mod = H - e := by unfold u64Mod; omega
+  have c2 : (H + e) % u64Mod = H + e := by unfold u64Mod; omega
+  rw [c1, c2] at hacc
+  simp only [Bool.not_eq_true', Bool.and_eq_false_iff, decide_eq_false_iff_not] at hacc
+  omega
+
+theorem rne_squeeze (f : Fmt) {lo v hi : Q} (hlo : 0 < lo.den) (hv : 0 < v.den) (hhi : 0 < hi.den)
+    (h1 : lo.toRat ≤ v.toRat) (h2 : v.toRat ≤ hi.toRat) {r : Nat}
+    (e1 : rne f lo = r) (e2 : rne f hi = r) : rne f v = r := by
+  have a := RneSpec.rne_mono f hlo hv ((Q.le_iff hlo hv).2 h1)
+  have b := RneSpec.rne_mono f hv hhi ((Q.le_iff hv hhi).2 h2)
+  omega
+
+theorem specShift_ge2 {F : FloatC} (h : F.WF) (exp : Int) : 2 ≤ specShift F exp := by
+  have := h.ms_le
+  unfold specShift; split <;> omega
+
+/-- **B4 (core).**  If `error_is_accurate` accepts the budget `e` at the normalised estimate
+    `M · 2^(exp − bias)` and the true value lies in `[(M − d), (M + e − d)] · 2^(exp − bias)` with
+    `4·d ≤ e`, then no rounding boundary of the format separates the true value from the estimate. -/
+theorem accurate_rne {F : FloatC} (h : F.WF) {M e d : Nat} {exp : Int} (hM : 2 ^ 63 ≤ M)
+    (hM' : M < 2 ^ 64) (hexp : -63 ≤ exp) (hd : 1 ≤ d) (hde : 4 * d ≤ e)
+    (hacc : errorIsAccurate F e ⟨M, exp⟩ = true) {v : Q} (hv : 0 < v.den)
+    (hlo : ((M : ℚ) - d) * (2:ℚ) ^ (exp - F.exponentBias) ≤ v.toRat)
+    (hhi : v.toRat ≤ ((M : ℚ) + e - d) * (2:ℚ) ^ (exp - F.exponentBias)) :
+    rne F.fmt v = rne F.fmt (ofDyadic M (exp - F.exponentBias)) := by
+  obtain ⟨he59, heH, hcase⟩ := acc_unpack h hexp hacc
+  obtain ⟨_, hk64⟩ := specShift_bounds h hexp
+  have hk2 := specShift_ge2 h exp
+  have hcl := @cross_low F h exp
+  have hcu := @cross_up F h exp
+  rw [rne_cf h hM hM']
+  have hcf : ∀ N, cf F N exp =
+      min (rhe N (2 ^ specShift F exp) + expOff F exp * 2 ^ F.mantissaSize) F.fmt.infBits := fun _ => rfl
+  have hrne : ∀ N, 2 ^ 63 ≤ N → N < 2 ^ 64 →
+      rne F.fmt (ofDyadic N (exp - F.exponentBias)) = cf F N exp := fun N a b => rne_cf h a b exp
+  generalize hk : specShift F exp = k at *
+  set j := exp - F.exponentBias with hj
+  have hpj := two_zpow_pos j
+  -- powers of two around the shift
+  obtain ⟨H2, hH2⟩ : ∃ H2, H2 = 2 ^ (k - 2) := ⟨_, rfl⟩
+  have hH21 : 1 ≤ H2 := by rw [hH2]; exact Nat.two_pow_pos _
+  have hH : 2 ^ (k - 1) = 2 * H2 := by
+    rw [hH2, ← pow_succ' (k - 2)]; congr 1; omega
+  have hP : 2 ^ k = 2 * 2 ^ (k - 1) := by rw [← pow_succ' (k - 1)]; congr 1; omega
+  have hT : 2 ^ 64 = 2 ^ (64 - k) * 2 ^ k := by rw [← Nat.pow_add]; congr 1; omega
+  have hdm := Nat.div_add_mod M (2 ^ k)
+  have hex := Nat.mod_lt M (Nat.two_pow_pos k)
+  rw [← hH2] at hcu
+  rw [hH] at heH hcase hP
+  generalize 2 ^ (64 - k) = T at *
+  generalize M / 2 ^ k = Q at *
+  generalize M % 2 ^ k = extra at *
+  have hQT : Q + 1 ≤ T := by
+    by_contra hc
+    have := Nat.mul_le_mul_right (2 ^ k) (show T ≤ Q by omega)
+    rw [Nat.mul_comm Q] at this
+    omega
+  have hQT' := Nat.mul_le_mul_right (2 ^ k) hQT
+  rw [Nat.add_mul, Nat.one_mul] at hQT'
+  have hcomm : 2 ^ k * Q = Q * 2 ^ k := Nat.mul_comm _ _
+  -- casts
+  have cN : ∀ N : Nat, (ofDyadic N j).toRat = (N : ℚ) * (2:ℚ) ^ j := fun N => ofDyadic_toRat N j
+  have hdle : d ≤ M + e := by omega
+  have chi : ((M + e - d : Nat) : ℚ) = (M : ℚ) + e - d := by
+    rw [Nat.cast_sub hdle]; push_cast; ring
+  have clo : ((M - d : Nat) : ℚ) = (M : ℚ) - d := by
+    rw [Nat.cast_sub (by omega)]
+  rcases hcase with hc | hc
+  · -- the dropped bits are below the halfway point: everything rounds down to `Q`
+    have eM : cf F M exp = min (Q + expOff F exp * 2 ^ F.mantissaSize) F.fmt.infBits := by
+      rw [hcf, rhe_down (q := Q) (r := extra) (by rw [Nat.mul_comm]; omega) (by omega)]
+    rw [eM]
+    have ehi : rne F.fmt (ofDyadic (M + e - d) j) =
+        min (Q + expOff F exp * 2 ^ F.mantissaSize) F.fmt.infBits := by
+      rw [hrne _ (by omega) (by omega), hcf,
+        rhe_down (q := Q) (r := extra + e - d) (by rw [Nat.mul_comm]; omega) (by omega)]
+    have vhi : v.toRat ≤ (ofDyadic (M + e - d) j).toRat := by rw [cN, chi]; exact hhi
+    by_cases hnorm : 2 ^ 63 + d ≤ M
+    · -- the lower end stays in the binade
+      have elo : rne F.fmt (ofDyadic (M - d) j) =
+          min (Q + expOff F exp * 2 ^ F.mantissaSize) F.fmt.infBits := by
+        rw [hrne _ (by omega) (by omega), hcf]
+        by_cases hde' : d ≤ extra
+        · rw [rhe_down (q := Q) (r := extra - d) (by rw [Nat.mul_comm]; omega) (by omega)]
+        · have hQ1 : 1 ≤ Q := by
+            rcases Nat.eq_zero_or_pos Q with h0 | h0
+            · rw [h0] at hdm; omega
+            · exact h0
+          have : (Q - 1) * 2 ^ k = 2 ^ k * Q - 2 ^ k := by
+            rw [Nat.sub_mul, Nat.one_mul, Nat.mul_comm]
+          have hle : 2 ^ k ≤ 2 ^ k * Q := Nat.le_mul_of_pos_right _ hQ1
+          rw [rhe_up (q := Q - 1) (r := 2 ^ k + extra - d) (by omega) (by omega) (by omega)]
+          congr 2; omega
+      have vlo : (ofDyadic (M - d) j).toRat ≤ v.toRat := by rw [cN, clo]; exact hlo
+      exact rne_squeeze _ (ofDyadic_den_pos _ _) hv (ofDyadic_den_pos _ _) vlo vhi elo ehi
+    · -- the lower end crosses below `2^63`
+      have hk63 : k ≤ 63 := by
+        by_contra hc'
+        have hk' : k = 64 := by omega
+        subst hk'
+        have : Q = 0 := by
+          rcases Nat.eq_zero_or_pos Q with h0 | h0
+          · exact h0
+          · have := Nat.le_mul_of_pos_right (2 ^ 64) h0; omega
+        subst this
+        omega
+      obtain ⟨U, hU⟩ : ∃ U, 2 ^ 63 = U * 2 ^ k := ⟨2 ^ (63 - k), by rw [← Nat.pow_add]; congr 1; omega⟩
+      have hQU : Q = U := by
+        rcases Nat.lt_trichotomy Q U with hlt | heq | hgt
+        · have := Nat.mul_le_mul_right (2 ^ k) (show Q + 1 ≤ U by omega)
+          rw [Nat.add_mul, Nat.one_mul, Nat.mul_comm Q] at this
+          omega
+        · exact heq
+        · have := Nat.mul_le_mul_right (2 ^ k) (show U + 1 ≤ Q by omega)
+          rw [Nat.add_mul, Nat.one_mul, Nat.mul_comm Q] at this
+          omega
+      have e63 : cf F (2 ^ 63) exp = min (Q + expOff F exp * 2 ^ F.mantissaSize) F.fmt.infBits := by
+        rw [hcf, rhe_down (q := U) (r := 0) (by omega) (by omega), hQU]
+      have elo : rne F.fmt (ofDyadic (2 ^ 64 - 2 * d) (exp - 1 - F.exponentBias)) =
+          min (Q + expOff F exp * 2 ^ F.mantissaSize) F.fmt.infBits := by
+        rw [rne_cf h (by omega) (by omega) (exp - 1), hcl hk63 hd (by omega), e63]
+      have vlo : (ofDyadic (2 ^ 64 - 2 * d) (exp - 1 - F.exponentBias)).toRat ≤ v.toRat := by
+        rw [ofDyadic_toRat, show exp - 1 - F.exponentBias = j - 1 by rw [hj]; ring,
+          zpow_sub_one₀ (by norm_num), Nat.cast_sub (by omega)]
+        have hM63 : ((2:ℚ) ^ 63) ≤ M := by exact_mod_cast hM
+        have : ((2 ^ 64 : Nat) : ℚ) - ((2 * d : Nat) : ℚ) = 2 * ((2:ℚ) ^ 63 - d) := by
+          push_cast; ring
+        rw [this]
+        have hx : 2 * ((2:ℚ) ^ 63 - d) * ((2:ℚ) ^ j * 2⁻¹) = ((2:ℚ) ^ 63 - d) * (2:ℚ) ^ j := by ring
+        rw [hx]
+        have := mul_le_mul_of_nonneg_right (show (2:ℚ) ^ 63 - d ≤ (M : ℚ) - d by linarith) hpj.le
+        linarith
+      exact rne_squeeze _ (ofDyadic_den_pos _ _) hv (ofDyadic_den_pos _ _) vlo vhi elo ehi
+  · -- the dropped bits are above the halfway point: everything rounds up to `Q + 1`
+    have eM : cf F M exp = min (Q + 1 + expOff F exp * 2 ^ F.mantissaSize) F.fmt.infBits := by
+      rw [hcf, rhe_up (q := Q) (r := extra) (by rw [Nat.mul_comm]; omega) hex (by omega)]
+    rw [eM]
+    have hN63 : 2 ^ 63 ≤ M - d := by
+      by_cases hk63 : k ≤ 63
+      · obtain ⟨U, hU⟩ : ∃ U, 2 ^ 63 = U * 2 ^ k :=
+          ⟨2 ^ (63 - k), by rw [← Nat.pow_add]; congr 1; omega⟩
+        have hUQ : U ≤ Q := by
+          by_contra hc'
+          have := Nat.mul_le_mul_right (2 ^ k) (show Q + 1 ≤ U by omega)
+          rw [Nat.add_mul, Nat.one_mul, Nat.mul_comm Q] at this
+          omega
+        have := Nat.mul_le_mul_right (2 ^ k) hUQ
+        rw [Nat.mul_comm Q] at this
+        omega
+      · have hk' : k = 64 := by omega
+        subst hk'
+        omega
+    have elo : rne F.fmt (ofDyadic (M - d) j) =
+        min (Q + 1 + expOff F exp * 2 ^ F.mantissaSize) F.fmt.infBits := by
+      rw [hrne _ hN63 (by omega), hcf,
+        rhe_up (q := Q) (r := extra - d) (by rw [Nat.mul_comm]; omega) (by omega) (by omega)]
+    have vlo : (ofDyadic (M - d) j).toRat ≤ v.toRat := by rw [cN, clo]; exact hlo
+    by_cases hnorm : M + e - d < 2 ^ 64
+    · have ehi : rne F.fmt (ofDyadic (M + e - d) j) =
+          min (Q + 1 + expOff F exp * 2 ^ F.mantissaSize) F.fmt.infBits := by
+        rw [hrne _ (by omega) hnorm, hcf]
+        by_cases hwrap : extra + e - d < 2 ^ k
+        · rw [rhe_up (q := Q) (r := extra + e - d) (by rw [Nat.mul_comm]; omega) hwrap (by omega)]
+        · rw [rhe_down (q := Q + 1) (r := extra + e - d - 2 ^ k)
+            (by rw [Nat.add_mul, Nat.one_mul, Nat.mul_comm Q]; omega) (by omega)]
+      have vhi : v.toRat ≤ (ofDyadic (M + e - d) j).toRat := by rw [cN, chi]; exact hhi
+      exact rne_squeeze _ (ofDyadic_den_pos _ _) hv (ofDyadic_den_pos _ _) vlo vhi elo ehi
+    · -- the upper end crosses `2^64`
+      have hQ1T : Q + 1 = T := by
+        by_contra hc'
+        have := Nat.mul_le_mul_right (2 ^ k) (show Q + 2 ≤ T by omega)
+        rw [Nat.add_mul, Nat.mul_comm Q] at this
+        omega
+      have ehi : rne F.fmt (ofDyadic (2 ^ 63 + H2 - 1) (exp + 1 - F.exponentBias)) =
+          min (Q + 1 + expOff F exp * 2 ^ F.mantissaSize) F.fmt.infBits := by
+        have hH2le : H2 ≤ 2 ^ 62 := by
+          rw [hH2]; exact Nat.pow_le_pow_right (by decide) (by omega)
+        rw [rne_cf h (by omega) (by omega) (exp + 1), hcu hk2 hk64, hQ1T]
+      have vhi : v.toRat ≤ (ofDyadic (2 ^ 63 + H2 - 1) (exp + 1 - F.exponentBias)).toRat := by
+        rw [ofDyadic_toRat, show exp + 1 - F.exponentBias = j + 1 by rw [hj]; ring,
+          zpow_add_one₀ (by norm_num)]
+        have hb : (M : ℚ) + e - d ≤ 2 * (((2 ^ 63 + H2 - 1 : Nat)) : ℚ) := by
+          have : M + e - d ≤ 2 * (2 ^ 63 + H2 - 1) := by omega
+          have := (Nat.cast_le (α := ℚ)).2 this
+          rw [chi] at this
+          push_cast at this ⊢
+          linarith
+        have := mul_le_mul_of_nonneg_right hb hpj.le
+        calc v.toRat ≤ ((M : ℚ) + e - d) * (2:ℚ) ^ j := hhi
+          _ ≤ 2 * (((2 ^ 63 + H2 - 1 : Nat)) : ℚ) * (2:ℚ) ^ j := this
+          _ = _ := by ring
+      exact rne_squeeze _ (ofDyadic_den_pos _ _) hv (ofDyadic_den_pos _ _) vlo vhi elo ehi
+
+
+/-! ## B5 — a declined estimate is within one float of the truth -/
+
+/-- closed form of `rneTrunc` at a normalised significand -/
+theorem rneTrunc_cf {F : FloatC} (h : F.WF) {N : Nat} (h1 : 2 ^ 63 ≤ N) (h2 : N < 2 ^ 64) (exp : Int) :
+    rneTrunc F.fmt (ofDyadic N (exp - F.exponentBias)) =
+      min (N / 2 ^ specShift F exp + expOff F exp * 2 ^ F.mantissaSize) F.fmt.infBits :=
+  rneTrunc_ofDyadic h h1 h2 exp
+
+/-- **B5 (core).**  With a budget `e ≤ 612` (what `NumOK` guarantees), `4·d ≤ e`, a format with at most
+    52 explicit significand bits and `exp ≥ −64`: if the true value lies in
+    `[(M − d), (M + e − d)] · 2^(exp − bias)` then it rounds to the truncation `b` of the estimate or to
+    `b + 1`. -/
+theorem est_rne {F : FloatC} (h : F.WF) (hms52 : F.mantissaSize ≤ 52) {M e d : Nat} {exp : Int}
+    (hM : 2 ^ 63 ≤ M) (hM' : M < 2 ^ 64) (hexp : -64 ≤ exp) (he : e ≤ 612) (hd : 1 ≤ d)
+    (hde : 4 * d ≤ e) {v : Q} (hv : 0 < v.den)
+    (hlo : ((M : ℚ) - d) * (2:ℚ) ^ (exp - F.exponentBias) ≤ v.toRat)
+    (hhi : v.toRat ≤ ((M : ℚ) + e - d) * (2:ℚ) ^ (exp - F.exponentBias)) :
+    rne F.fmt v = rneTrunc F.fmt (ofDyadic M (exp - F.exponentBias)) ∨
+    rne F.fmt v = rneTrunc F.fmt (ofDyadic M (exp - F.exponentBias)) + 1 := by
+  have hms := h.ms_le
+  have hk2 := specShift_ge2 h exp
+  have hk11 : 11 ≤ specShift F exp := by unfold specShift; split <;> omega
+  have hcl := @cross_low F h exp
+  have hcu := @cross_up F h exp
+  rw [rneTrunc_cf h hM hM']
+  have hcf : ∀ N, cf F N exp =
+      min (rhe N (2 ^ specShift F exp) + expOff F exp * 2 ^ F.mantissaSize) F.fmt.infBits := fun _ => rfl
+  have hrne : ∀ N, 2 ^ 63 ≤ N → N < 2 ^ 64 →
+      rne F.fmt (ofDyadic N (exp - F.exponentBias)) = cf F N exp := fun N a b => rne_cf h a b exp
+  have hoff64 : 64 ≤ specShift F exp → expOff F exp = 0 := by
+    unfold specShift expOff; split <;> omega
+  have hk65 : specShift F exp ≤ 65 := by unfold specShift; split <;> omega
+  have hk64iff : specShift F exp ≤ 64 ↔ -63 ≤ exp := by unfold specShift; split <;> omega
+  set j := exp - F.exponentBias with hj
+  have hpj := two_zpow_pos j
+  have cN : ∀ N : Nat, (ofDyadic N j).toRat = (N : ℚ) * (2:ℚ) ^ j := fun N => ofDyadic_toRat N j
+  have hdle : d ≤ M + e := by omega
+  have chi : ((M + e - d : Nat) : ℚ) = (M : ℚ) + e - d := by
+    rw [Nat.cast_sub hdle]; push_cast; ring
+  have clo : ((M - d : Nat) : ℚ) = (M : ℚ) - d := by
+    rw [Nat.cast_sub (by omega)]
+  have hinf := RneSpec.rne_le_inf F.fmt v
+  generalize hk : specShift F exp = k at *
+  have hdm := Nat.div_add_mod M (2 ^ k)
+  have hex := Nat.mod_lt M (Nat.two_pow_pos k)
+  generalize M / 2 ^ k = Qd at *
+  generalize M % 2 ^ k = extra at *
+  have hcomm : 2 ^ k * Qd = Qd * 2 ^ k := Nat.mul_comm _ _
+  -- it suffices to bracket `rne v`
+  suffices hb : min (Qd + expOff F exp * 2 ^ F.mantissaSize) F.fmt.infBits ≤ rne F.fmt v ∧
+      rne F.fmt v ≤ min (Qd + expOff F exp * 2 ^ F.mantissaSize) F.fmt.infBits + 1 by omega
+  constructor
+  · -- lower bracket
+    by_cases hk63 : k ≤ 63
+    · obtain ⟨U, hU⟩ : ∃ U, 2 ^ 63 = U * 2 ^ k := ⟨2 ^ (63 - k), by rw [← Nat.pow_add]; congr 1; omega⟩
+      have hH : 2 ^ 11 ≤ 2 ^ k := Nat.pow_le_pow_right (by decide) hk11
+      have hUQ : U ≤ Qd := by
+        by_contra hc'
+        have := Nat.mul_le_mul_right (2 ^ k) (show Qd + 1 ≤ U by omega)
+        rw [Nat.add_mul, Nat.one_mul] at this
+        omega
+      by_cases hnorm : 2 ^ 63 + d ≤ M
+      · have vlo : (ofDyadic (M - d) j).toRat ≤ v.toRat := by rw [cN, clo]; exact hlo
+        have hmono := RneSpec.rne_mono F.fmt (ofDyadic_den_pos _ _) hv
+          ((Q.le_iff (ofDyadic_den_pos _ _) hv).2 vlo)
+        rw [hrne _ (by omega) (by omega), hcf] at hmono
+        have hr : Qd ≤ rhe (M - d) (2 ^ k) := by
+          by_cases hde' : d ≤ extra
+          · have : Qd ≤ (M - d) / 2 ^ k := by
+              rw [Nat.le_div_iff_mul_le (Nat.two_pow_pos k)]; omega
+            exact Nat.le_trans this (div_le_rhe _ _)
+          · have hQ1 : 1 ≤ Qd := by
+              have : 1 ≤ U := by
+                rcases Nat.eq_zero_or_pos U with h0 | h0
+                · rw [h0] at hU; omega
+                · exact h0
+              omega
+            have : (Qd - 1) * 2 ^ k = Qd * 2 ^ k - 2 ^ k := by rw [Nat.sub_mul, Nat.one_mul]
+            have hle : 2 ^ k ≤ Qd * 2 ^ k := Nat.le_mul_of_pos_left _ hQ1
+            rw [rhe_up (q := Qd - 1) (r := 2 ^ k + extra - d) (by omega) (by omega) (by omega)]
+            omega
+        omega
+      · have hQU : Qd = U := by
+          rcases Nat.lt_or_eq_of_le hUQ with hlt | heq
+          · have := Nat.mul_le_mul_right (2 ^ k) (show U + 1 ≤ Qd by omega)
+            rw [Nat.add_mul, Nat.one_mul] at this
+            omega
+          · exact heq.symm
+        have e63 : cf F (2 ^ 63) exp = min (Qd + expOff F exp * 2 ^ F.mantissaSize) F.fmt.infBits := by
+          rw [hcf, rhe_down (q := U) (r := 0) (by omega) (by omega), hQU]
+        have elo : rne F.fmt (ofDyadic (2 ^ 64 - 2 * d) (exp - 1 - F.exponentBias)) =
+            min (Qd + expOff F exp * 2 ^ F.mantissaSize) F.fmt.infBits := by
+          rw [rne_cf h (by omega) (by omega) (exp - 1), hcl hk63 hd (by omega), e63]
+        have vlo : (ofDyadic (2 ^ 64 - 2 * d) (exp - 1 - F.exponentBias)).toRat ≤ v.toRat := by
+          rw [ofDyadic_toRat, show exp - 1 - F.exponentBias = j - 1 by rw [hj]; ring,
+            zpow_sub_one₀ (by norm_num), Nat.cast_sub (by omega)]
+          have hM63 : ((2:ℚ) ^ 63) ≤ M := by exact_mod_cast hM
+          have : ((2 ^ 64 : Nat) : ℚ) - ((2 * d : Nat) : ℚ) = 2 * ((2:ℚ) ^ 63 - d) := by
+            push_cast; ring
+          rw [this]
+          have hx : 2 * ((2:ℚ) ^ 63 - d) * ((2:ℚ) ^ j * 2⁻¹) = ((2:ℚ) ^ 63 - d) * (2:ℚ) ^ j := by ring
+          rw [hx]
+          have := mul_le_mul_of_nonneg_right (show (2:ℚ) ^ 63 - d ≤ (M : ℚ) - d by linarith) hpj.le
+          linarith
+        have hmono := RneSpec.rne_mono F.fmt (ofDyadic_den_pos _ _) hv
+          ((Q.le_iff (ofDyadic_den_pos _ _) hv).2 vlo)
+        rw [elo] at hmono
+        exact hmono
+    · -- shift ≥ 64: the truncation is 0
+      have h0 : Qd = 0 := by
+        have hbig : 2 ^ 64 ≤ 2 ^ k := Nat.pow_le_pow_right (by decide) (by omega)
+        rcases Nat.eq_zero_or_pos Qd with h0 | h0
+        · exact h0
+        · have := Nat.le_mul_of_pos_right (2 ^ k) h0; omega
+      rw [h0, hoff64 (by omega)]
+      simp
+  · -- upper bracket
+    by_cases hE : -63 ≤ exp
+    · have hk64 : k ≤ 64 := hk64iff.2 hE
+      have hT : 2 ^ 64 = 2 ^ (64 - k) * 2 ^ k := by rw [← Nat.pow_add]; congr 1; omega
+      obtain ⟨H2, hH2⟩ : ∃ H2, H2 = 2 ^ (k - 2) := ⟨_, rfl⟩
+      have hH2big : 2 ^ 9 ≤ H2 := by rw [hH2]; exact Nat.pow_le_pow_right (by decide) (by omega)
+      have hP : 2 ^ k = 4 * H2 := by
+        have e1 : 2 ^ k = 2 * 2 ^ (k - 1) := by rw [← pow_succ' (k - 1)]; congr 1; omega
+        have e2 : 2 ^ (k - 1) = 2 * 2 ^ (k - 2) := by rw [← pow_succ' (k - 2)]; congr 1; omega
+        rw [e1, e2, hH2]; ring
+      rw [← hH2] at hcu
+      generalize 2 ^ (64 - k) = T at *
+      have hQT : Qd + 1 ≤ T := by
+        by_contra hc
+        have := Nat.mul_le_mul_right (2 ^ k) (show T ≤ Qd by omega)
+        omega
+      by_cases hnorm : M + e - d < 2 ^ 64
+      · have vhi : v.toRat ≤ (ofDyadic (M + e - d) j).toRat := by rw [cN, chi]; exact hhi
+        have hmono := RneSpec.rne_mono F.fmt hv (ofDyadic_den_pos _ _)
+          ((Q.le_iff hv (ofDyadic_den_pos _ _)).2 vhi)
+        rw [hrne _ (by omega) hnorm, hcf] at hmono
+        have hr : rhe (M + e - d) (2 ^ k) ≤ Qd + 1 := by
+          apply rhe_le_of_lt_half (Nat.two_pow_pos k)
+          have : (2 * (Qd + 1) + 1) * 2 ^ k = 2 * (Qd * 2 ^ k) + 3 * 2 ^ k := by ring
+          omega
+        omega
+      · have hQ1T : Qd + 1 = T := by
+          by_contra hc'
+          have := Nat.mul_le_mul_right (2 ^ k) (show Qd + 2 ≤ T by omega)
+          rw [Nat.add_mul] at this
+          omega
+        have ehi : rne F.fmt (ofDyadic (2 ^ 63 + H2 - 1) (exp + 1 - F.exponentBias)) =
+            min (Qd + 1 + expOff F exp * 2 ^ F.mantissaSize) F.fmt.infBits := by
+          have hH2le : H2 ≤ 2 ^ 62 := by
+            rw [hH2]; exact Nat.pow_le_pow_right (by decide) (by omega)
+          rw [rne_cf h (by omega) (by omega) (exp + 1), hcu hk2 hk64, hQ1T]
+        have vhi : v.toRat ≤ (ofDyadic (2 ^ 63 + H2 - 1) (exp + 1 - F.exponentBias)).toRat := by
+          rw [ofDyadic_toRat, show exp + 1 - F.exponentBias = j + 1 by rw [hj]; ring,
+            zpow_add_one₀ (by norm_num)]
+          have hb : (M : ℚ) + e - d ≤ 2 * (((2 ^ 63 + H2 - 1 : Nat)) : ℚ) := by
+            have : M + e - d ≤ 2 * (2 ^ 63 + H2 - 1) := by omega
+            have := (Nat.cast_le (α := ℚ)).2 this
+            rw [chi] at this
+            push_cast at this ⊢
+            linarith
+          have := mul_le_mul_of_nonneg_right hb hpj.le
+          calc v.toRat ≤ ((M : ℚ) + e - d) * (2:ℚ) ^ j := hhi
+            _ ≤ 2 * (((2 ^ 63 + H2 - 1 : Nat)) : ℚ) * (2:ℚ) ^ j := this
+            _ = _ := by ring
+        have hmono := RneSpec.rne_mono F.fmt hv (ofDyadic_den_pos _ _)
+          ((Q.le_iff hv (ofDyadic_den_pos _ _)).2 vhi)
+        rw [ehi] at hmono
+        omega
+    · -- exp = −64: the value is below the smallest subnormal
+      have hE64 : exp = -64 := by omega
+      have e1 : rne F.fmt (ofDyadic (2 ^ 63) (-62 - F.exponentBias)) = 1 := by
+        rw [rne_cf h (Nat.le_refl _) (by decide) (-62)]
+        unfold cf
+        have s1 : specShift F (-62) = 63 := by unfold specShift; split <;> omega
+        have s2 : expOff F (-62) = 0 := by unfold expOff; split <;> omega
+        rw [s1, s2, rhe_down (q := 1) (r := 0) (by omega) (by decide)]
+        have := infBits_pos F.fmt (by have := h.eb_ge; exact Nat.le_trans (by decide) this)
+        omega
+      have vhi : v.toRat ≤ (ofDyadic (2 ^ 63) (-62 - F.exponentBias)).toRat := by
+        rw [ofDyadic_toRat, show -62 - F.exponentBias = j + 2 by rw [hj, hE64]; ring,
+          zpow_add₀ (by norm_num)]
+        have hb : (M : ℚ) + e - d ≤ ((2 ^ 63 : Nat) : ℚ) * (2:ℚ) ^ (2 : Int) := by
+          have : M + e - d ≤ 2 ^ 63 * 4 := by omega
+          have := (Nat.cast_le (α := ℚ)).2 this
+          rw [chi] at this
+          push_cast at this ⊢
+          norm_num at this ⊢
+          linarith
+        have := mul_le_mul_of_nonneg_right hb hpj.le
+        calc v.toRat ≤ ((M : ℚ) + e - d) * (2:ℚ) ^ j := hhi
+          _ ≤ ((2 ^ 63 : Nat) : ℚ) * (2:ℚ) ^ (2 : Int) * (2:ℚ) ^ j := this
+          _ = _ := by ring
+      have hmono := RneSpec.rne_mono F.fmt hv (ofDyadic_den_pos _ _)
+        ((Q.le_iff hv (ofDyadic_den_pos _ _)).2 vhi)
+      rw [e1] at hmono
+      omega
+
 
 end MinLex.Bel
